@@ -668,6 +668,26 @@ let run_sjsondec payload =
      | DFuel -> L [A "out-of-fuel"])
   | _ -> failwith "sjsondec payload"
 
+(* ---- schema TEXT codec (Impl/SchemaText.v): kinds stparse / stprint, the AST format of harness/kinds_schemaast.go ---- *)
+(* stparse: <schema text as a string atom> -> (ok <xschema>) | (err) | (unmodelled) *)
+let run_stparse payload =
+  match payload with
+  | [A text] ->
+    (match parse_schema (str_of_atom text) with
+     | SOk s ->
+       let s = List.filter (fun (name, n) -> name <> [] || n.xs_entities <> [] || n.xs_enums <> [] || n.xs_commons <> [] || n.xs_actions <> []) s in
+       L [A "ok"; L (A "xschema" :: List.map sx_of_xns (by_key s))]
+     | SErr -> L [A "err"]
+     | SUnk -> L [A "unmodelled"]
+     | SFuel -> L [A "out-of-fuel"])
+  | _ -> failwith "stparse payload"
+
+(* stprint: <xschema> -> (text <bytes as a string atom>) *)
+let run_stprint payload =
+  match payload with
+  | [L (A "xschema" :: nss)] -> L [A "text"; A (atom_of_str (print_schema (List.map xns_of_sx nss)))]
+  | _ -> failwith "stprint payload"
+
 (* ---- typeof: the expression type checker in one request environment ---- *)
 let rec cty_of_rsx (s : Sexp.t) : cty =
   match s with
@@ -750,6 +770,8 @@ let run_case kind payload =
   | "typeof" -> run_typeof payload
   | "sjsonenc" -> run_sjsonenc payload
   | "sjsondec" -> run_sjsondec payload
+  | "stparse" -> run_stparse payload
+  | "stprint" -> run_stprint payload
   | "schemaresolve" -> run_schemaresolve payload
   | "pjsonenc" -> run_pjsonenc payload
   | "pjsondec" -> run_pjsondec payload
